@@ -12,6 +12,7 @@ import (
 	"fmt"
 	"os"
 	"path/filepath"
+	"reflect"
 	"sync"
 	"sync/atomic"
 	"syscall"
@@ -138,6 +139,21 @@ type confEvent struct {
 	TRet    time.Time // when Confirm() had returned true
 	Payload []byte    // concatenation of the record payloads, copied before Confirm
 	RecLens []int
+	Src     uintptr // identity of the worker the event came from (its confirmation channel); 0 = unknown
+}
+
+// eventSource identifies the worker an event came from: every worker has its own confirmation channel, which the
+// event carries in an unexported field until Confirm() is called. 0 when the field is not found (then the streams
+// of two workers on the same path can only be told apart by their content).
+func eventSource(ev *model.Event) (src uintptr) {
+	defer func() { recover() }()
+	v := reflect.ValueOf(ev).Elem()
+	for i := 0; i < v.NumField(); i++ {
+		if f := v.Field(i); f.Kind() == reflect.Chan {
+			return f.Pointer()
+		}
+	}
+	return 0
 }
 
 type consumer struct {
@@ -224,8 +240,9 @@ func (c *consumer) run(ctx context.Context, events <-chan *model.Event, session 
 			return
 		}
 		seq := atomic.AddInt64(c.clock, 1)
+		src := eventSource(ev)
 		if ev.Confirm() {
-			c.confirmed = append(c.confirmed, confEvent{Session: session, SeqCall: seq, TRet: time.Now(), Payload: pay, RecLens: lens})
+			c.confirmed = append(c.confirmed, confEvent{Session: session, SeqCall: seq, TRet: time.Now(), Payload: pay, RecLens: lens, Src: src})
 			c.confBytes += int64(len(pay))
 		}
 		c.mu.Unlock()
@@ -870,15 +887,42 @@ type rotObs struct {
 // attribute splits the confirmed events into the old file's stream and the new file's stream: old content is lower
 // case, new content upper case; an event of newlines only goes to the stream that expects a newline next
 func attribute(led []confEvent, wOld, wNew []byte) (cOld, cNew []byte, mixed string) {
-	lastOld := true
-	for _, e := range led {
-		lo, up := false, false
-		for _, b := range e.Payload {
+	letters := func(p []byte) (lo, up bool) {
+		for _, b := range p {
 			if b >= 'a' && b <= 'z' {
 				lo = true
 			} else if b >= 'A' && b <= 'Z' {
 				up = true
 			}
+		}
+		return
+	}
+	// a worker reads ONE file: the events of a worker that delivered letters of one case only all belong to that file
+	// (this settles the newline-only events when both workers are active at the same time and both files have an empty
+	// line next)
+	srcOld, srcNew := map[uintptr]bool{}, map[uintptr]bool{}
+	for _, e := range led {
+		if e.Src == 0 {
+			continue
+		}
+		lo, up := letters(e.Payload)
+		if lo {
+			srcOld[e.Src] = true
+		}
+		if up {
+			srcNew[e.Src] = true
+		}
+	}
+	lastOld := true
+	for _, e := range led {
+		lo, up := letters(e.Payload)
+		if !lo && !up && e.Src != 0 && srcOld[e.Src] != srcNew[e.Src] {
+			if srcOld[e.Src] {
+				cOld = append(cOld, e.Payload...)
+			} else {
+				cNew = append(cNew, e.Payload...)
+			}
+			continue
 		}
 		switch {
 		case lo && up:
